@@ -1,4 +1,4 @@
-import BridgeVerif.Lemmas.SessionSpec
+import BridgeVerif.Lemmas.SessionC08
 /-!
 # C08 — The table manager's log records exactly what was played
 
@@ -17,26 +17,34 @@ configured board, in order, and closed it; no other thread writes -/
 theorem log_is_session_spec (sc : Scenario) (h : sc.boards ≠ []) (us : List Tid) (n : Net Tid Chan Text LogOp)
     (hr : Run parties (Net.init (sessionProg sc)) us n) (hs : Stuck parties n) :
     n.outs .main = logSpec sc ∧ ∀ t, t ≠ .main → n.outs t = [] := by
-  sorry
+  obtain ⟨_, _, _, houts⟩ := C09.never_deadlocks sc us n hr hs
+  refine ⟨?_, fun t ht => ?_⟩
+  · rw [houts, C09.log_is_opened_written_closed sc h]; rfl
+  · rw [houts, session_emits_not_main sc t ht]
 
 /-- the record does not depend on thread timing: any two executions that have come to rest wrote the same log -/
 theorem log_independent_of_schedule (sc : Scenario) (us vs : List Tid) (n m : Net Tid Chan Text LogOp)
     (hr : Run parties (Net.init (sessionProg sc)) us n) (hs : Stuck parties n)
     (hr' : Run parties (Net.init (sessionProg sc)) vs m) (hs' : Stuck parties m) :
     n.outs = m.outs ∧ n.hist = m.hist := by
-  sorry
+  obtain ⟨rfl, _⟩ := maximal_runs_agree (C09.session_disciplined sc) hr hs hr' hs'
+  exact ⟨rfl, rfl⟩
 
 /-- identifier, dealer, complete ORIGINAL deal, team names, double-dummy table and the calls exactly as configured / sent -/
 theorem deal_logged_is_original (sc : Scenario) (b : BoardSetting) (d : Decisions) :
     let r := recordOf sc b d
     r.boardId = b.boardId ∧ r.dealer = b.dealer ∧ r.deal = b.deal ∧ r.nsName = sc.nsName ∧ r.ewName = sc.ewName ∧
     r.calls = d.calls.map (·.1) ∧ r.dda = b.dda := by
-  sorry
+  rw [recordOf_eq]
+  split <;> exact ⟨rfl, rfl, rfl, rfl, rfl, rfl, rfl⟩
 
 /-- the two sides' scores are negatives of each other -/
 theorem scores_are_opposite (sc : Scenario) (b : BoardSetting) (d : Decisions) :
     (recordOf sc b d).scoreEW = - (recordOf sc b d).scoreNS := by
-  sorry
+  rw [recordOf_eq]
+  split
+  · next decl _ _ => cases decl.side <;> simp
+  · simp
 
 /-- a passed-out board has no play, no trick count and zero scores; any other board has both -/
 theorem passed_out_record_shape (sc : Scenario) (b : BoardSetting) (d : Decisions) (hc : ConformingAuction b d) :
@@ -44,7 +52,14 @@ theorem passed_out_record_shape (sc : Scenario) (b : BoardSetting) (d : Decision
     (r.contract.isPassedOut = true → r.play = none ∧ r.tricks = none ∧ r.scoreNS = 0 ∧ r.scoreEW = 0 ∧
         r.contract.declarer = none) ∧
     (r.contract.isPassedOut = false → r.play.isSome ∧ r.tricks.isSome ∧ r.contract.declarer.isSome) := by
-  sorry
+  have hbc := boardContract_conforming b d hc
+  rcases specContract_shape b.dealer b.vul (d.calls.map (·.1)).reverse with ⟨hf, hd⟩ | ⟨i, decl, hf, hd⟩
+  · rw [← hbc] at hf hd
+    rw [recordOf_passed sc b d (Or.inl hf)]
+    simp [Contract.isPassedOut, hf, hd]
+  · rw [← hbc] at hf hd
+    rw [recordOf_played sc b d i decl hf hd]
+    simp [Contract.isPassedOut, hf, hd]
 
 /-- contract, declarer, tricks and score follow from the calls and cards by the rules: the contract is the Laws'
 contract of the auction (C03), the recorded tricks are the cards cut in fours with their true leaders (C04), the
@@ -61,6 +76,12 @@ theorem record_follows_rules (sc : Scenario) (b : BoardSetting) (d : Decisions)
       r.tricks = some (wonBy (bidDenom i) decl.left decl.side cards) ∧
       (if decl.side = .NS then r.scoreNS else r.scoreEW) =
         dupScore (bidLevel i) (bidDenom i) r.contract.dbl (sideVulnerable b.vul decl) (wonBy (bidDenom i) decl.left decl.side cards)) := by
-  sorry
+  have hbc := boardContract_conforming b d hc
+  have hcon : (recordOf sc b d).contract = boardContract b d := by rw [recordOf_eq]; split <;> rfl
+  have hvul : (recordOf sc b d).vul = (boardContract b d).vul := by rw [recordOf_eq]; split <;> rfl
+  refine ⟨hcon.trans hbc, by rw [hvul, hbc, specContract_vul], ?_⟩
+  intro decl i hd hf
+  rw [hcon] at hd hf ⊢
+  exact record_rules sc b d hc hp decl i hd hf
 
 end Bridge.C08
